@@ -129,12 +129,12 @@ func c30Lines(sdp string) []string {
 }
 
 var (
-	c30RePT   = regexp.MustCompile(`^a=rtpmap:(\d+) `)      //nolint:gochecknoglobals
-	c30ReSSRC = regexp.MustCompile(`^a=ssrc:(\d+)`)         //nolint:gochecknoglobals
-	c30ReMid  = regexp.MustCompile(`^a=mid:(\S+)`)          //nolint:gochecknoglobals
-	c30ReExt  = regexp.MustCompile(`^a=extmap:(\d+)`)       //nolint:gochecknoglobals
-	c30ReRid  = regexp.MustCompile(`^a=rid:(\S+)`)          //nolint:gochecknoglobals
-	c30ReNum  = regexp.MustCompile(`\d+`)                   //nolint:gochecknoglobals
+	c30RePT   = regexp.MustCompile(`^a=rtpmap:(\d+) `)       //nolint:gochecknoglobals
+	c30ReSSRC = regexp.MustCompile(`^a=ssrc:(\d+)`)          //nolint:gochecknoglobals
+	c30ReMid  = regexp.MustCompile(`^a=mid:(\S+)`)           //nolint:gochecknoglobals
+	c30ReExt  = regexp.MustCompile(`^a=extmap:(\d+)`)        //nolint:gochecknoglobals
+	c30ReRid  = regexp.MustCompile(`^a=rid:(\S+)`)           //nolint:gochecknoglobals
+	c30ReNum  = regexp.MustCompile(`\d+`)                    //nolint:gochecknoglobals
 	c30ReSGrp = regexp.MustCompile(`^a=ssrc-group:\S+ (.*)`) //nolint:gochecknoglobals
 )
 
